@@ -800,7 +800,9 @@ func doRecover(caller *frame) value {
 			// The interpreter explicitly called panic().
 			return iface{caller.i.runtimeErrorString, p}
 		default:
-			panic(fmt.Sprintf("unexpected panic type %T in target call to recover()", p))
+			// an engine-level abort (infeasible path, outside bound, exit): not
+			// visible to the target program, keep unwinding
+			panic(p)
 		}
 	}
 	return iface{}
